@@ -95,7 +95,7 @@ func permutations(n int, limit int, r *rand.Rand) [][]int {
 		return nil
 	}
 	fact := 1
-	for i := 2; i <= n; i++ {
+	for i := 2; i <= n && fact <= 1<<20; i++ {
 		fact *= i
 	}
 	var out [][]int
